@@ -55,6 +55,14 @@ def collect(ctx, prop):
     # bodies and replies of several thousand octets (beyond any plausible internal chunk size), request and reply direction
     mids = rng.sample(MID, 5) if quick else MID * 3
     scen += [crypt_scenario(rng, nscen + i, False, mid=m) for i, m in enumerate(mids)]
+    # shared secrets far longer than any buffer someone might think sufficient (own random stream)
+    r3 = random.Random("longkeys-%d" % ctx.seed)
+    for i, kl in enumerate([120, 122, 123, 124, 127, 128, 129, 200, 255, 256, 1000, 4096][: (12 if quick else 12)]):
+        s_ = crypt_scenario(r3, nscen + 100 + i, False)
+        s_["key"] = [r3.randint(0, 255) for _ in range(kl)]
+        for p_ in s_["pkts"]:
+            p_["fl"] &= 0xfe
+        scen.append(s_)
     sfile = ctx.path("scen.ndjson")
     with open(sfile, "w") as f:
         for s in scen:
